@@ -55,6 +55,10 @@ TARGETS = {
 }
 
 
+# targets compiled WITHOUT -DTRROUTING_VERIF: the real server binary must be the production code (the yield-point
+# hooks of DESIGN.md section 8 expand to nothing, and nothing has to supply trrouting_verif_point); cachegen uses no repo code
+NO_GUARD = {"server", "cachegen"}
+
 SETUP_TARGETS = [("core", "asan")]
 
 
@@ -118,7 +122,7 @@ def build(target, variant="asan", quiet=True):
     hs, rs, need_capnp, libs = TARGETS[target]
     os.makedirs(os.path.join(CACHE, "obj"), exist_ok=True)
     os.makedirs(os.path.join(CACHE, "bin"), exist_ok=True)
-    flags = COMMON + VARIANTS[variant]
+    flags = [f for f in COMMON if not (target in NO_GUARD and f == "-D" + GUARD)] + VARIANTS[variant]
     hh = headers_hash()
     srcs = [os.path.join(VERIF, "harness", h) for h in hs] + [os.path.join(REPO, r) for r in rs]
     if need_capnp:
